@@ -122,3 +122,31 @@ func Describe(parts []Part) string {
 	}
 	return sb.String()
 }
+
+// Canon rewrites every character reference that stands for one of < > & ' " into one canonical spelling, so that
+// two renderings can be compared without fixing WHICH correct spelling an escaper uses (&#34; or &quot;, decimal or
+// hex, upper or lower case). Everything else, raw specials included, is left as it is.
+func Canon(s string) string {
+	if !strings.Contains(s, "&") {
+		return s
+	}
+	var sb strings.Builder
+	for i := 0; i < len(s); {
+		if s[i] == '&' {
+			if end := strings.IndexByte(s[i:], ';'); end > 0 && end <= 12 {
+				ref := s[i : i+end+1]
+				if dec := html.UnescapeString(ref); len(dec) == 1 && strings.Contains(specials, dec) {
+					fmt.Fprintf(&sb, "&#%d;", dec[0])
+					i += end + 1
+					continue
+				}
+			}
+		}
+		sb.WriteByte(s[i])
+		i++
+	}
+	return sb.String()
+}
+
+// SameText reports whether two renderings are equal up to the spelling of character references for the five specials.
+func SameText(a, b string) bool { return a == b || Canon(a) == Canon(b) }
